@@ -4,7 +4,7 @@ From OP Require Import lib.Obs model.Interp model.InterpRun model.C02 model.C03 
 Import ListNotations.
 Open Scope Z_scope.
 
-(* For EVERY tick of the interpreter model, from any state, with any environment: an instruction outside alarm bodies
+(* For EVERY tick of the interpreter model, from any state, with any environment: an instruction outside Alarm and Macro bodies
    whose threshold is still awaited in that tick (the scope clock has not reached it: the environment lists it) and that
    had not started before the tick has not started after it -- unless it was completed or forced. Whatever else the
    tick does (other generators, interrupts, errors), nothing but the threshold loop of `visit` starts a line, and that
